@@ -143,7 +143,7 @@ def fanout3_raw(rng):
 
 
 SCHEMAS = ["indep", "cascade", "cascade_rev", "shared", "casc_shared", "feedback", "feedback_free", "fanout", "casc_extra", "sibling", "fanout_coupled", "fanout3",
-           "tlp_degenerate"]
+           "tlp_degenerate", "t4_chain"]
 
 
 def degenerate_rows(rng, ys, extra, with_point=False):
@@ -206,6 +206,23 @@ def pair_raw(rng, schema, dyadic=0.0):
         d2 = contract_raw(rng, ["y", "z"], ["p"], na=(1, 2), dyadic=dyadic, band=B)
     elif schema == "fanout3":
         d1, d2 = fanout3_raw(rng)
+    elif schema == "t4_chain":
+        # the consumer's assumption on v can only be discharged through a producer row that LINKS v to a second output w (and inputs), and a
+        # bound on w: tactic 4's recursion.  Orientations are random: some chains bound v from the right side, some from the wrong one
+        s1, s2, s3 = rng.choice([1, -1]), rng.choice([1, -1]), rng.choice([1, -1])
+        link = ({"v": -s1, "w": s2 * rng.choice([1, 2]), "i": rng.choice([-1, 1])}, rng.randint(0, 2))
+        bound = ({"w": s3, "i2": -rng.choice([1, 2])}, rng.randint(0, 3))
+        d1 = {"inv": ["i", "i2"], "outv": ["v", "w"], "a": [], "g": [link, bound] if rng.random() < 0.5 else [bound, link]}
+        d2 = {"inv": ["v", "j"], "outv": ["p"], "a": [({"v": rng.choice([1, 1, -1]), "j": rng.choice([1, 2])}, rng.randint(4, 10))], "g": [({"p": 1, "j": -1}, 0)]}
+    elif schema == "tlp_degenerate" and rng.random() < 0.5:
+        # three producer guarantees over both outputs whose bounds MOVE with the input and which all pass through one point when the input
+        # sits at the end of its assumed range: the LP of tactic 5 (over outputs and input) has a degenerate optimum there with four
+        # active rows, and the first two of them, (4,1) and (3,2), do not bound y + z with non-negative multipliers
+        Z, U, V = rng.choice([10, 5, 8]), rng.choice([10, 4, 6]), rng.choice([10, 3, 7])
+        ya, zb = ("y", "z") if rng.random() < 0.5 else ("z", "y")
+        rows = [({ya: a, zb: b, "i": c}, a * U + b * V + c * Z) for a, b, c in ((4, 1, 10), (3, 2, -3), (1, 2, -1))]
+        d1 = {"inv": ["i"], "outv": ["y", "z"], "a": [({"i": 1}, Z), ({"i": -1}, 0)], "g": rows}
+        d2 = {"inv": ["y", "z", "s"], "outv": ["p"], "a": [({"s": 1, "y": 1, "z": 1}, rng.randint(3, 8))], "g": [({"p": 1, "s": -1}, 0)]}
     elif schema == "tlp_degenerate":
         # the consumer's assumption needs a bound on a combination of BOTH producer outputs, and the producer's guarantees meet in one point
         a = {v: rng.choice([1, 2, 3]) * rng.choice([1, 1, -1]) for v in ("y", "z")}
